@@ -7,47 +7,416 @@ import TzVerif.Spec.Zone
 namespace TzVerif.Proofs
 open TzVerif.Model
 
+/-! ### Helper definitions -/
+
+/-- successive-record condition with the previous record's time and correction as parameters -/
+def Steps : Int → Int → List LeapSecond → Prop
+  | _, _, [] => True
+  | t, c, l :: rest =>
+    l.unixLeapTime - t ≥ 2419199 ∧ (l.correction - c = 1 ∨ l.correction - c = -1) ∧
+      Steps l.unixLeapTime l.correction rest
+
+/-- correction of the last record with time `< T` in a sorted list (default `c`), stopping early -/
+def corrFrom : Int → List LeapSecond → Int → Int
+  | c, [], _ => c
+  | c, l :: rest, T => if l.unixLeapTime < T then corrFrom l.correction rest T else c
+
+/-- `corrBefore` with a default -/
+def corrBeforeD (c : Int) (ls : List LeapSecond) (T : Int) : Int :=
+  match (ls.filter (fun l => l.unixLeapTime < T)).getLast? with
+  | none => c
+  | some l => l.correction
+
+theorem steps_of_stepsOK (l : LeapSecond) (rest : List LeapSecond) (h : Spec.LeapStepsOK (l :: rest)) :
+    Steps l.unixLeapTime l.correction rest := by
+  induction rest generalizing l with
+  | nil => trivial
+  | cons m rest ih =>
+    obtain ⟨h1, h2, h3⟩ := h
+    exact ⟨h1, h2, ih m h3⟩
+
+theorem steps_of_wf (ls : List LeapSecond) (hwf : Spec.LeapWF ls) : ∃ t, Steps t 0 ls := by
+  cases ls with
+  | nil => exact ⟨0, trivial⟩
+  | cons l rest =>
+    obtain ⟨⟨_, h2⟩, h3⟩ := hwf
+    refine ⟨l.unixLeapTime - 2419199, ?_, ?_, steps_of_stepsOK l rest h3⟩
+    · omega
+    · omega
+
+theorem steps_mem_gt (t c : Int) (ls : List LeapSecond) (h : Steps t c ls) :
+    ∀ x ∈ ls, t + 2419199 ≤ x.unixLeapTime := by
+  induction ls generalizing t c with
+  | nil => intro x hx; cases hx
+  | cons l rest ih =>
+    obtain ⟨h1, _, h3⟩ := h
+    intro x hx
+    rcases List.mem_cons.mp hx with rfl | hx
+    · omega
+    · have := ih _ _ h3 x hx
+      omega
+
+theorem corrBeforeD_eq_corrFrom (t c : Int) (ls : List LeapSecond) (h : Steps t c ls) (T : Int) :
+    corrBeforeD c ls T = corrFrom c ls T := by
+  induction ls generalizing t c with
+  | nil => rfl
+  | cons l rest ih =>
+    obtain ⟨h1, h2, h3⟩ := h
+    by_cases hl : l.unixLeapTime < T
+    · have := ih _ _ h3
+      simp only [corrFrom, hl, if_true, ← this]
+      simp only [corrBeforeD, List.filter_cons, hl, decide_true, if_true, List.getLast?_cons]
+      cases (List.filter (fun l => decide (l.unixLeapTime < T)) rest).getLast? <;> rfl
+    · have hempty : List.filter (fun l => decide (l.unixLeapTime < T)) rest = [] := by
+        rw [List.filter_eq_nil_iff]
+        intro x hx
+        have := steps_mem_gt _ _ _ h3 x hx
+        simp only [decide_eq_true_eq]
+        omega
+      simp [corrFrom, hl, corrBeforeD, hempty]
+
+theorem corrBefore_eq_corrFrom (t : Int) (ls : List LeapSecond) (h : Steps t 0 ls) (T : Int) :
+    Spec.corrBefore ls T = corrFrom 0 ls T :=
+  corrBeforeD_eq_corrFrom t 0 ls h T
+
+/-- drift bound: corrections move by at most 1 per record while times advance much faster -/
+theorem corrFrom_drift (t c : Int) (ls : List LeapSecond) (h : Steps t c ls) (T : Int) (hT : t < T) :
+    t + 1 - c ≤ T - corrFrom c ls T := by
+  induction ls generalizing t c with
+  | nil => simp only [corrFrom]; omega
+  | cons l rest ih =>
+    obtain ⟨h1, h2, h3⟩ := h
+    by_cases hl : l.unixLeapTime < T
+    · have := ih _ _ h3 hl
+      simp only [corrFrom, hl, if_true]
+      omega
+    · simp only [corrFrom, hl, if_false]
+      omega
+
+theorem leapLoop_ge (u t c : Int) (ls : List LeapSecond) (h : Steps t c ls) (k : Int) (hge : t ≤ u + c)
+    (hk : leapLoop u ls (u + c) = .ok k) : t ≤ k := by
+  induction ls generalizing t c with
+  | nil =>
+    simp only [leapLoop, Except.ok.injEq] at hk
+    omega
+  | cons l rest ih =>
+    obtain ⟨h1, h2, h3⟩ := h
+    simp only [leapLoop] at hk
+    split at hk
+    · simp only [Except.ok.injEq] at hk; omega
+    · split at hk
+      · cases hk
+      · split at hk
+        · simp only [Except.ok.injEq] at hk; omega
+        · have := ih _ _ h3 (by omega) hk
+          omega
+
+theorem galois_gen (u t c : Int) (ls : List LeapSecond) (h : Steps t c ls) (k T : Int)
+    (hk : leapLoop u ls (u + c) = .ok k) : T ≤ k ↔ T - corrFrom c ls T ≤ u := by
+  induction ls generalizing t c with
+  | nil =>
+    simp only [leapLoop, Except.ok.injEq] at hk
+    simp only [corrFrom]
+    omega
+  | cons l rest ih =>
+    obtain ⟨h1, h2, h3⟩ := h
+    simp only [leapLoop] at hk
+    by_cases hl : l.unixLeapTime < T
+    · have hd := corrFrom_drift _ _ _ h3 T hl
+      simp only [corrFrom, hl, if_true]
+      split at hk
+      · simp only [Except.ok.injEq] at hk; omega
+      · split at hk
+        · cases hk
+        · split at hk
+          · simp only [Except.ok.injEq] at hk; omega
+          · exact ih _ _ h3 hk
+    · simp only [corrFrom, hl, if_false]
+      split at hk
+      · simp only [Except.ok.injEq] at hk; omega
+      · split at hk
+        · cases hk
+        · split at hk
+          · simp only [Except.ok.injEq] at hk; omega
+          · have := leapLoop_ge u _ _ rest h3 k (by omega) hk
+            omega
+
+theorem corrFrom_mono (t c : Int) (ls : List LeapSecond) (h : Steps t c ls) (T T' : Int) (hT : T ≤ T') :
+    T - corrFrom c ls T ≤ T' - corrFrom c ls T' := by
+  induction ls generalizing t c with
+  | nil => simp only [corrFrom]; omega
+  | cons l rest ih =>
+    obtain ⟨h1, h2, h3⟩ := h
+    by_cases hl : l.unixLeapTime < T
+    · have hl' : l.unixLeapTime < T' := by omega
+      simp only [corrFrom, hl, hl', if_true]
+      exact ih _ _ h3
+    · by_cases hl' : l.unixLeapTime < T'
+      · have hd := corrFrom_drift _ _ _ h3 T' hl'
+        simp only [corrFrom, hl, hl', if_true, if_false]
+        omega
+      · simp only [corrFrom, hl, hl', if_false]
+        omega
+
+theorem leapLoop_error (ls : List LeapSecond) (hr : Spec.LeapInRange ls) (u est : Int) (e : TzError)
+    (h : leapLoop u ls est = .error e) :
+    e = .outOfRange ∧ (u < i64Min + 2147483648 ∨ u > i64Max - 2147483648) := by
+  induction ls generalizing est with
+  | nil => simp [leapLoop] at h
+  | cons l rest ih =>
+    have hl := hr l (List.mem_cons_self)
+    have hrest : Spec.LeapInRange rest := fun x hx => hr x (List.mem_cons_of_mem _ hx)
+    simp only [leapLoop] at h
+    split at h
+    · cases h
+    · split at h
+      · rename_i hov
+        simp only [Except.error.injEq] at h
+        refine ⟨h.symm, ?_⟩
+        simp only [i64Min, i64Max, i32Min, i32Max] at hov hl ⊢
+        omega
+      · split at h
+        · cases h
+        · exact ih hrest _ h
+
+theorem corrFrom_succ (t c : Int) (pre post : List LeapSecond) (l : LeapSecond)
+    (h : Steps t c (pre ++ l :: post)) :
+    corrFrom c (pre ++ l :: post) (l.unixLeapTime + 1) = l.correction := by
+  induction pre generalizing t c with
+  | nil =>
+    obtain ⟨h1, h2, h3⟩ := h
+    have hl : l.unixLeapTime < l.unixLeapTime + 1 := by omega
+    simp only [List.nil_append, corrFrom, hl, if_true]
+    cases post with
+    | nil => rfl
+    | cons m post =>
+      obtain ⟨h4, _, _⟩ := h3
+      have hm : ¬ m.unixLeapTime < l.unixLeapTime + 1 := by omega
+      simp only [corrFrom, hm, if_false]
+  | cons p pre ih =>
+    obtain ⟨h1, h2, h3⟩ := h
+    have := steps_mem_gt _ _ _ h3 l (by simp)
+    have hp : p.unixLeapTime < l.unixLeapTime + 1 := by omega
+    simp only [List.cons_append, corrFrom, hp, if_true]
+    exact ih _ _ h3
+
+theorem corrBefore_succ (pre post : List LeapSecond) (l : LeapSecond) (hwf : Spec.LeapWF (pre ++ l :: post)) :
+    Spec.corrBefore (pre ++ l :: post) (l.unixLeapTime + 1) = l.correction := by
+  obtain ⟨t, ht⟩ := steps_of_wf _ hwf
+  rw [corrBefore_eq_corrFrom t _ ht]
+  exact corrFrom_succ t 0 pre post l ht
+
+/-! ### Binary search -/
+
+/-- number of leading elements `≤ x` -/
+def cntI : List Int → Int → Nat
+  | [], _ => 0
+  | a :: rest, x => if a ≤ x then cntI rest x + 1 else 0
+
+/-- `r` is the insertion point after all elements `≤ x` -/
+def IsUpper (l : List Int) (x : Int) (r : Nat) : Prop :=
+  r ≤ l.length ∧ (∀ i, i < r → l.getD i 0 ≤ x) ∧ (∀ i, r ≤ i → i < l.length → x < l.getD i 0)
+
+theorem isUpper_unique (l : List Int) (x : Int) (r r' : Nat) (h : IsUpper l x r) (h' : IsUpper l x r') :
+    r = r' := by
+  obtain ⟨h1, h2, h3⟩ := h
+  obtain ⟨h1', h2', h3'⟩ := h'
+  rcases Nat.lt_trichotomy r r' with hlt | heq | hgt
+  · have a := h2' r hlt
+    have b := h3 r (Nat.le_refl _) (by omega)
+    omega
+  · exact heq
+  · have a := h2 r' hgt
+    have b := h3' r' (Nat.le_refl _) (by omega)
+    omega
+
+theorem bsLoop_isUpper (l : List Int) (hs : ∀ i j, i < j → j < l.length → l.getD i 0 < l.getD j 0)
+    (x : Int) (left right : Nat) (hlr : left ≤ right) (hr : right ≤ l.length)
+    (hlo : ∀ i, i < left → l.getD i 0 ≤ x) (hhi : ∀ i, right ≤ i → i < l.length → x < l.getD i 0) :
+    IsUpper l x (binarySearchLoop l x left right).upper := by
+  fun_induction binarySearchLoop l x left right with
+  | case1 left right h mid v hv ih =>
+    apply ih (by omega) hr
+    · intro i hi
+      by_cases him : i = mid
+      · subst him; omega
+      · have := hs i mid (by omega) (by omega)
+        omega
+    · exact hhi
+  | case2 left right h mid v hv hv2 ih =>
+    apply ih (by omega) (by omega) hlo
+    intro i hi hil
+    by_cases him : i = mid
+    · subst him; omega
+    · have := hs mid i (by omega) hil
+      omega
+  | case3 left right h mid v hv hv2 =>
+    have hveq : l.getD mid 0 = x := by omega
+    refine ⟨by simp only [BS.upper]; omega, ?_, ?_⟩
+    · intro i hi
+      simp only [BS.upper] at hi
+      by_cases him : i = mid
+      · subst him; omega
+      · have := hs i mid (by omega) (by omega)
+        omega
+    · intro i hi hil
+      simp only [BS.upper] at hi
+      have := hs mid i (by omega) hil
+      omega
+  | case4 left right h =>
+    have : left = right := by omega
+    subst this
+    exact ⟨hr, fun i hi => hlo i hi, hhi⟩
+
+/-- strictly increasing, with a lower bound for the head -/
+def IncFrom : Int → List Int → Prop
+  | _, [] => True
+  | t, a :: rest => t < a ∧ IncFrom a rest
+
+theorem incFrom_getD_gt (t : Int) (l : List Int) (h : IncFrom t l) (i : Nat) (hi : i < l.length) :
+    t < l.getD i 0 := by
+  induction l generalizing t i with
+  | nil => simp at hi
+  | cons a rest ih =>
+    obtain ⟨h1, h2⟩ := h
+    cases i with
+    | zero => simpa using h1
+    | succ i =>
+      have := ih a h2 i (by simpa using hi)
+      simp only [List.getD_cons_succ]
+      omega
+
+theorem incFrom_sorted (t : Int) (l : List Int) (h : IncFrom t l) :
+    ∀ i j, i < j → j < l.length → l.getD i 0 < l.getD j 0 := by
+  induction l generalizing t with
+  | nil => intro i j _ hj; simp at hj
+  | cons a rest ih =>
+    obtain ⟨h1, h2⟩ := h
+    intro i j hij hj
+    cases j with
+    | zero => omega
+    | succ j =>
+      have hj' : j < rest.length := by simpa using hj
+      cases i with
+      | zero =>
+        simpa using incFrom_getD_gt a rest h2 j hj'
+      | succ i =>
+        simpa using ih a h2 i j (by omega) hj'
+
+theorem cntI_isUpper (t : Int) (l : List Int) (h : IncFrom t l) (x : Int) : IsUpper l x (cntI l x) := by
+  induction l generalizing t with
+  | nil => exact ⟨Nat.le_refl _, fun i hi => by simp [cntI] at hi, fun i _ hi => by simp at hi⟩
+  | cons a rest ih =>
+    obtain ⟨h1, h2⟩ := h
+    by_cases ha : a ≤ x
+    · obtain ⟨i1, i2, i3⟩ := ih a h2
+      simp only [cntI, ha, if_true]
+      refine ⟨by simpa using i1, ?_, ?_⟩
+      · intro i hi
+        cases i with
+        | zero => simpa using ha
+        | succ i => simpa using i2 i (by omega)
+      · intro i hi hil
+        cases i with
+        | zero => omega
+        | succ i => simpa using i3 i (by omega) (by simpa using hil)
+    · simp only [cntI, ha, if_false]
+      refine ⟨by omega, fun i hi => by omega, ?_⟩
+      intro i _ hil
+      cases i with
+      | zero => simp only [List.getD_cons_zero]; omega
+      | succ i =>
+        have := incFrom_getD_gt a rest h2 i (by simpa using hil)
+        simp only [List.getD_cons_succ]
+        omega
+
+theorem incFrom_of_steps (t c : Int) (ls : List LeapSecond) (h : Steps t c ls) :
+    IncFrom t (ls.map (·.unixLeapTime)) := by
+  induction ls generalizing t c with
+  | nil => trivial
+  | cons l rest ih =>
+    obtain ⟨h1, _, h3⟩ := h
+    exact ⟨show t < l.unixLeapTime by omega, ih _ _ h3⟩
+
+theorem corrFrom_eq_index (c : Int) (ls : List LeapSecond) (T : Int) :
+    corrFrom c ls T =
+      (if cntI (ls.map (·.unixLeapTime)) (T - 1) > 0
+       then (ls.getD (cntI (ls.map (·.unixLeapTime)) (T - 1) - 1) default).correction else c) := by
+  induction ls generalizing c with
+  | nil => simp [corrFrom, cntI]
+  | cons l rest ih =>
+    by_cases hl : l.unixLeapTime < T
+    · have hl' : l.unixLeapTime ≤ T - 1 := by omega
+      simp only [corrFrom, hl, if_true, List.map_cons, cntI, hl', ih l.correction]
+      cases hc : cntI (List.map (fun x => x.unixLeapTime) rest) (T - 1) with
+      | zero => simp
+      | succ n => simp
+    · have hl' : ¬ l.unixLeapTime ≤ T - 1 := by omega
+      simp [corrFrom, hl, cntI, hl']
+
+theorem binarySearch_upper (t : Int) (l : List Int) (h : IncFrom t l) (x : Int) :
+    (binarySearch l x).upper = cntI l x := by
+  apply isUpper_unique l x _ _ _ (cntI_isUpper t l h x)
+  exact bsLoop_isUpper l (incFrom_sorted t l h) x 0 l.length (Nat.zero_le _) (Nat.le_refl _)
+    (fun i hi => by omega) (fun i hi hil => by omega)
+
 /-- `unix_leap_time_to_unix_time` computes the spec's `toUtc` (binary search = "last record before") -/
 theorem unixLeapTimeToUnixTime_eq (ls : List LeapSecond) (hwf : Spec.LeapWF ls) (T : Int) :
     unixLeapTimeToUnixTime ls T =
       (if T = i64Min then .error .outOfRange
        else if i64Min ≤ Spec.toUtc ls T ∧ Spec.toUtc ls T ≤ i64Max then .ok (Spec.toUtc ls T)
        else .error .outOfRange) := by
-  sorry
+  obtain ⟨t, ht⟩ := steps_of_wf ls hwf
+  have hidx := binarySearch_upper t _ (incFrom_of_steps t 0 ls ht) (T - 1)
+  have hc := corrFrom_eq_index 0 ls T
+  simp only [unixLeapTimeToUnixTime, Spec.toUtc, corrBefore_eq_corrFrom t ls ht, hidx, hc]
 
 /-- the Galois connection between the two conversions -/
 theorem galois (ls : List LeapSecond) (hwf : Spec.LeapWF ls) (u k T : Int)
     (h : unixTimeToUnixLeapTime ls u = .ok k) : T ≤ k ↔ Spec.toUtc ls T ≤ u := by
-  sorry
+  obtain ⟨t, ht⟩ := steps_of_wf ls hwf
+  have := galois_gen u t 0 ls ht k T (by simpa [unixTimeToUnixLeapTime] using h)
+  simpa [Spec.toUtc, corrBefore_eq_corrFrom t ls ht] using this
 
 theorem toUtc_mono (ls : List LeapSecond) (hwf : Spec.LeapWF ls) (T T' : Int) (h : T ≤ T') :
     Spec.toUtc ls T ≤ Spec.toUtc ls T' := by
-  sorry
+  obtain ⟨t, ht⟩ := steps_of_wf ls hwf
+  simpa [Spec.toUtc, corrBefore_eq_corrFrom t ls ht] using corrFrom_mono t 0 ls ht T T' h
 
 theorem toCount_mono (ls : List LeapSecond) (hwf : Spec.LeapWF ls) (u u' k k' : Int) (h : u ≤ u')
     (hk : unixTimeToUnixLeapTime ls u = .ok k) (hk' : unixTimeToUnixLeapTime ls u' = .ok k') : k ≤ k' := by
-  sorry
+  have h1 : Spec.toUtc ls k ≤ u := (galois ls hwf u k k hk).mp (Int.le_refl k)
+  exact (galois ls hwf u' k' k hk').mpr (by omega)
 
 theorem roundtrip (ls : List LeapSecond) (hwf : Spec.LeapWF ls) (u k : Int) (hnd : ¬ Spec.Deleted ls u)
     (hk : unixTimeToUnixLeapTime ls u = .ok k) : Spec.toUtc ls k = u := by
-  sorry
+  have hex : ∃ T, Spec.toUtc ls T = u := Classical.not_not.mp hnd
+  obtain ⟨T, hT⟩ := hex
+  have h1 : Spec.toUtc ls k ≤ u := (galois ls hwf u k k hk).mp (Int.le_refl k)
+  have h2 : T ≤ k := (galois ls hwf u k T hk).mpr (by omega)
+  have h3 := toUtc_mono ls hwf T k h2
+  omega
 
 /-- only overflow at the i64 ends makes the forward conversion fail -/
 theorem toCount_error_only_overflow (ls : List LeapSecond) (hr : Spec.LeapInRange ls) (u : Int) (e : TzError)
     (h : unixTimeToUnixLeapTime ls u = .error e) :
     e = .outOfRange ∧ (u < i64Min + 2147483648 ∨ u > i64Max - 2147483648) := by
-  sorry
+  exact leapLoop_error ls hr u u e h
 
 /-- an inserted leap second: the record's count and the next one denote the same UTC second -/
 theorem inserted_shares (pre post : List LeapSecond) (l : LeapSecond) (hwf : Spec.LeapWF (pre ++ l :: post))
     (hins : l.correction = Spec.corrBefore (pre ++ l :: post) l.unixLeapTime + 1) :
     Spec.toUtc (pre ++ l :: post) l.unixLeapTime = Spec.toUtc (pre ++ l :: post) (l.unixLeapTime + 1) := by
-  sorry
+  have := corrBefore_succ pre post l hwf
+  simp only [Spec.toUtc]
+  omega
 
 /-- a deleted second: the UTC value just after the record is skipped -/
 theorem deleted_skips (pre post : List LeapSecond) (l : LeapSecond) (hwf : Spec.LeapWF (pre ++ l :: post))
     (hdel : l.correction = Spec.corrBefore (pre ++ l :: post) l.unixLeapTime - 1) :
     Spec.toUtc (pre ++ l :: post) (l.unixLeapTime + 1) = Spec.toUtc (pre ++ l :: post) l.unixLeapTime + 2 := by
-  sorry
+  have := corrBefore_succ pre post l hwf
+  simp only [Spec.toUtc]
+  omega
 
 end TzVerif.Proofs
